@@ -50,6 +50,8 @@ type c41Val struct {
 	yaml    string // YAML literal producing v ("" = not cross-checked)
 }
 
+const c41Workers = 4
+
 const (
 	c41MustLoad = iota
 	c41MustRefuse
@@ -521,10 +523,19 @@ type c41Viol struct {
 
 func (t *c41Tally) report(sig string, entries []c41Entry, detail func() map[string]any) {
 	size := 0
-	for _, e := range entries {
-		size += 1000 + len(e.mtu.label) + len(e.route.label)
+	w := func(present bool, label string) {
+		if present {
+			size += 10 + len(label)
+		}
+	}
+	for _, e := range entries { // fewest entries, then fewest configured fields, then shortest values
+		size += 1000
+		w(e.mtu.present, e.mtu.label)
+		w(e.route.present, e.route.label)
 		if e.unsafe {
-			size += len(e.metric.label) + len(e.instal.label) + len(e.via.label)
+			w(e.metric.present, e.metric.label)
+			w(e.instal.present, e.instal.label)
+			w(e.via.present, e.via.label)
 		}
 	}
 	v := t.viol[sig]
@@ -963,7 +974,9 @@ func TestVerifC41(t *testing.T) {
 	})
 
 	// ---- run
-	workers := runtime.GOMAXPROCS(0)
+	// The enumeration is allocation-bound (the parsers build errors and slices); measured on a loaded 16-core box it
+	// scales negatively beyond a few threads (allocator lock convoys), so a small fixed pool is used.
+	workers := min(c41Workers, runtime.GOMAXPROCS(0))
 	tallies := make([]*c41Tally, workers)
 	var next atomic.Int64
 	var capped atomic.Bool
